@@ -369,7 +369,34 @@ def check(facts, rep, tier, cfg):
                 rep.analysed(b)
                 where = "%s (%s)" % (loc_str(t["loc"]), b.path)
                 key = "forwarder-target/%d" % k5
-                if d and tg and d <= tg:
+                from an import inexact_steps as _ix5
+
+                def _dgf(x):
+                    return x.kind == "field" and x[2] in ("target_host", "target_port", "data") and (x[3] or "").endswith("penguin_mux::Datagram")
+                altered = []
+                top5 = strip(tr.operand(t["args"][2]))
+                while top5.kind in ("ref", "deref", "cast"):
+                    top5 = strip(top5[1])
+                tuples5 = [top5] if top5.kind == "agg" and top5[1] == "tuple" else []
+                if not tuples5:
+                    for x in walk(top5):
+                        if x.kind == "call" and x[3] and "forwarder::bind_" in x[1] + x[2]:
+                            a0 = strip(x[3][0])
+                            while a0.kind in ("ref", "deref", "cast"):
+                                a0 = strip(a0[1])
+                            if a0.kind == "agg" and a0[1] == "tuple":
+                                tuples5.append(a0)
+                            break
+                for x in tuples5:
+                    for _, el in x[3]:
+                        if any(_dgf(y) for y in walk(el)):
+                            altered += _ix5(el, _dgf, 16, extra_calls=("from_utf8", "from_utf8_unchecked", "to_str", "as_str", "to_string"))
+                altered += _ix5(tr.operand(t["args"][1]), _dgf, None, extra_calls=("as_slice",))
+                if d and tg and d <= tg and altered:
+                    rep.bad("C01.R5", "forwarder-target-exact/%d" % k5, where,
+                            "the datagram is not sent as it is to the target it names: `%s` is computed from the datagram's field instead of being "
+                            "the field itself (another port / host / payload for some values)" % altered[0])
+                elif d and tg and d <= tg:
                     rep.ok("C01.R5", key, where, "payload and target come from the same datagram")
                 else:
                     rep.bad("C01.R5", "forwarder-target-mismatch/%d" % k5, where,
